@@ -323,7 +323,16 @@ pub(crate) fn run(opts: &Opts, report: &mut Report) {
             if *s == Scn::UnminedProof && !eaglesong {
                 continue;
             }
-            let (sim, n) = build_with(&env, &w, params, *s, None);
+            let (sim, n) = match c10::try_build_with(&env, &w, params, *s, None) {
+                Ok(r) => r,
+                Err(_) => {
+                    if *s == scn {
+                        report.count("scenarios_not_reachable_in_this_world", 1);
+                        return;
+                    }
+                    continue;
+                }
+            };
             for home in sim.queue.iter().take(n) {
                 if *s == scn {
                     own_homes.push(home.data.to_vec());
